@@ -55,7 +55,10 @@ L3 == UNION {Wrap(c) : c \in R2}
 Protocol == {MetaObjectT, ObjRefT, ServiceInfoT, CapabilityMapT, MetaMethodT}
 (* r (raw) and o (object reference) only at the top level: r is a dynamic value only, o is *)
 (* the same bytes as ObjRefT under the one-letter signature                               *)
-Universe == L0 \cup L1 \cup L2 \cup (IF Level >= 3 THEN L3 ELSE {}) \cup Protocol \cup {S("r"), S("o")}
+(* ... and o nested in each container kind (the reader attached to a nested "o" is another code  *)
+(* site than the one used for a top-level object reference)                                        *)
+NestedO == {List(S("o")), Map(S("s"), S("o")), Tup(<<S("s"), S("o")>>), Struct(N_Q, <<N_a, N_b>>, <<S("o"), S("i")>>)}
+Universe == L0 \cup L1 \cup L2 \cup (IF Level >= 3 THEN L3 ELSE {}) \cup Protocol \cup {S("r"), S("o")} \cup NestedO
 
 (* types a dynamic value nested at depth d may have *)
 DynTypes(d) == IF d <= 0 THEN {S("i"), S("s"), S("v")}
